@@ -627,6 +627,8 @@ func TestC19(t *testing.T) {
 		ID:     "C19",
 		Level:  "exploration",
 		Bubble: true,
+		// a case (8 scenarios) normally takes ~0.2 s; the real-time watchdog only has to survive an oversubscribed machine
+		CaseTimeout: 10 * time.Minute,
 		Rule: "every case is one testing/synctest bubble with a fresh Node (not run), a standalone MemoryBroker and a standalone MemoryMapBroker (persistent and recoverable map channels), each with a recording BrokerEventHandler, and 8 scenarios on distinct channels (half stream broker, half map broker). " +
 			"A scenario is 12-40 steps on 1-2 channels (map: 3 keys): Publish with a random mix of idempotency key (none / new / reused, result TTL 1-10 s or the 300 s default), version (none / held-1 / held / held+1 / small / 2^53, 2^53+1, 2^63-1, 2^63, 2^63+1, 2^64-2, 2^64-1) and version epoch (only empty / only named / mixed per scenario), with or without history (stream broker), " +
 			"and virtual-clock jumps to 1-2.5 s before / after a result-TTL deadline or random 1-3000 ms sleeps. After every publish: Suppressed flag, SuppressReason, returned position (a repeated key must return the ORIGINAL position), number of HandlePublication calls (0 for suppressed, exactly 1 otherwise), and the complete History / ReadStream+ReadState read back are compared with the reference model. " +
